@@ -94,6 +94,9 @@ type fakeClient struct {
 	openCount   map[uint16]int
 	inflight    atomic.Int32
 	maxInflight atomic.Int32
+	// optional real pieces (hybrid: fake streams, real rollback-mitigation polling on a simulated cluster)
+	agent  *gocbcore.Agent
+	snapFn func() (*gocbcore.ConfigSnapshot, error)
 }
 
 func newFakeClient(numVb int) *fakeClient {
@@ -102,6 +105,9 @@ func newFakeClient(numVb int) *fakeClient {
 }
 
 func (f *fakeClient) GetDcpAgentConfigSnapshot() (*gocbcore.ConfigSnapshot, error) {
+	if f.snapFn != nil {
+		return f.snapFn()
+	}
 	return realSnapshot(), nil
 }
 func (f *fakeClient) GetAgentConfigSnapshot() (*gocbcore.ConfigSnapshot, error) {
@@ -216,7 +222,7 @@ func (f *fakeClient) GetCollectionIDs(string, []string) (map[uint32]string, erro
 	return map[uint32]string{}, nil
 }
 func (f *fakeClient) GetAgentQueues() []*models.AgentQueue { return nil }
-func (f *fakeClient) GetAgent() *gocbcore.Agent            { return nil }
+func (f *fakeClient) GetAgent() *gocbcore.Agent            { return f.agent }
 func (f *fakeClient) GetMetaAgent() *gocbcore.Agent        { return nil }
 
 func (f *fakeClient) observer(vb uint16) couchbase.Observer {
@@ -270,11 +276,12 @@ type saveOutcome struct {
 
 // fakeMeta: durable store with per-vBucket write granularity (like the Couchbase backend).
 type fakeMeta struct {
-	mu      sync.Mutex
-	durable map[uint16]ckTuple
-	calls   []*saveCall
-	loads   int
-	loadErr error
+	mu       sync.Mutex
+	durable  map[uint16]ckTuple
+	calls    []*saveCall
+	loads    int
+	loadErr  error
+	loadOmit map[uint16]bool // vBuckets left out of the dump Load returns
 	// next outcome for non-blocking saves (nextFn, if set, decides per call)
 	next   saveOutcome
 	nextFn func() saveOutcome
@@ -358,6 +365,10 @@ func (m *fakeMeta) Load(vbIds []uint16, bucketUUID string) (*wrapper.ConcurrentS
 	st := wrapper.CreateConcurrentSwissMap[uint16, *models.CheckpointDocument](1024)
 	exist := false
 	for _, vb := range vbIds {
+		if m.loadOmit[vb] {
+			exist = true // the store holds checkpoints, just not for this vBucket
+			continue
+		}
 		if t, ok := m.durable[vb]; ok {
 			st.Store(vb, &models.CheckpointDocument{
 				Checkpoint: &models.CheckpointDocumentCheckpoint{
